@@ -105,8 +105,6 @@ type c03TWorld struct {
 	localGrants   int
 	recovered     int
 	afterRecovery int
-	recoverTried  *int
-	recoverOK     *int
 }
 
 func c03NewTWorld(f failer, st *verifkit.Stats, e *c03Env, rate, burst, k int, t0 int64) *c03TWorld {
@@ -247,8 +245,14 @@ func (w *c03TWorld) allowN(i, n int, ctx bool, fault int) {
 
 // waitAlive waits (wall clock, budget) until the given instances consult the store again.
 func (w *c03TWorld) waitAlive(idx []int) {
-	if w.recoverTried != nil {
-		*w.recoverTried++
+	needed := false // somebody really is on its rescue bucket: this wait exercises the ping loop
+	for _, i := range idx {
+		if !w.inst[i].lim.VerifAlive() {
+			needed = true
+		}
+	}
+	if needed {
+		c03RecTried++
 	}
 	t0 := time.Now()
 	for {
@@ -267,8 +271,9 @@ func (w *c03TWorld) waitAlive(idx []int) {
 		}
 		time.Sleep(2 * time.Millisecond)
 	}
-	if w.recoverOK != nil {
-		*w.recoverOK++
+	if needed {
+		c03RecOK++
+		w.st.Class("recovery:completed")
 	}
 	for _, i := range idx {
 		in := w.inst[i]
@@ -278,6 +283,24 @@ func (w *c03TWorld) waitAlive(idx []int) {
 		in.local, in.grants = false, nil
 	}
 	w.logf(" recovered%v", idx)
+}
+
+// Recoveries that had to wait for the ping loop, and those that completed within the
+// budget (process-wide; the units run their cases sequentially).
+var c03RecTried, c03RecOK int
+
+// c03NoRecovery: when not a single recovery completed in >= 3 attempts the outage clause
+// was not exercised.  That is no verdict (wall-clock budgets only) but no pass either: the
+// unit ends with a non-FAIL exit status, which the driver reports as INFRA/inconclusive
+// instead of OK.
+func c03NoRecovery(tt *testing.T, st *verifkit.Stats) {
+	if tt.Failed() || c03RecTried < 3 || c03RecOK > 0 {
+		return
+	}
+	st.Note("no limiter returned to the store within the budget in %d attempts: outage/recovery clause not exercised", c03RecTried)
+	st.Flush()
+	fmt.Printf("INCONCLUSIVE: C03 outage: 0 of %d recoveries completed within the wall-clock budget\n", c03RecTried)
+	os.Exit(3)
 }
 
 func (w *c03TWorld) all() []int {
@@ -424,23 +447,17 @@ func TestVerifC03TokenMachine(t *testing.T) {
 // PINGs first.
 func TestVerifC03TokenOutage(t *testing.T) {
 	st := verifkit.New("token-outage")
-	flushed := false
-	defer func() {
-		if !flushed {
-			st.Flush()
-		}
-	}()
-	tried, ok := 0, 0
+	defer st.Flush()
+	tt := t
 	rapid.Check(t, func(t *rapid.T) {
+		c03NoRecovery(tt, st)
 		st.Eval()
 		e := c03Server(t)
-		e.down.Store(false)
 		e.mr.FlushAll()
 		e.pad(30)
 		rate, burst := c03DrawConfig(t, st)
 		k := rapid.IntRange(1, 4).Draw(t, "instances")
 		w := c03NewTWorld(t, st, e, rate, burst, k, c03DrawT0(t))
-		w.recoverTried, w.recoverOK = &tried, &ok
 		pickI := rapid.IntRange(0, k-1)
 		acts := w.jointActions(pickI)
 		outages := 0
@@ -510,17 +527,7 @@ func TestVerifC03TokenOutage(t *testing.T) {
 			st.NonTrivial(w.log.String())
 		}
 	})
-	st.ClassN("recovery:waited", tried)
-	st.ClassN("recovery:completed", ok)
-	if tried >= 5 && ok == 0 {
-		// Not a verdict (wall-clock budgets only), but not a pass either: make the run
-		// inconclusive instead of silently reporting OK.
-		st.Note("no limiter returned to the store within the budget in %d attempts: outage/recovery clause not exercised", tried)
-		flushed = true
-		st.Flush()
-		fmt.Printf("INCONCLUSIVE: C03 token-outage: 0 of %d recoveries completed within the wall-clock budget\n", tried)
-		os.Exit(3)
-	}
+	c03NoRecovery(tt, st)
 }
 
 // Real outage: the server is closed (connection refused) and restarted on its port.
@@ -533,13 +540,25 @@ var (
 func TestVerifC03TokenOutageReal(t *testing.T) {
 	st := verifkit.New("token-outage-real")
 	defer st.Flush()
+	tt := t
+	defer c03NoRecovery(tt, st)
 	rapid.Check(t, func(t *rapid.T) {
+		c03NoRecovery(tt, st)
 		st.Eval()
 		c03RealOnce.Do(func() { c03Real, c03RealErr = c03NewEnv() })
 		if c03RealErr != nil {
 			t.Skipf("inconclusive: cannot start miniredis: %v", c03RealErr)
 		}
 		e := c03Real
+		e.reset()
+		if e.closed.Load() { // a failed case left the server closed
+			if err := e.mr.Restart(); err != nil {
+				c03RealErr = fmt.Errorf("restart: %w", err)
+				t.Skipf("inconclusive: cannot restart miniredis: %v", err)
+			}
+			e.installPreHook()
+			e.closed.Store(false)
+		}
 		e.mr.FlushAll()
 		e.pad(150)
 		rate, burst := c03DrawConfig(t, st)
